@@ -51,6 +51,7 @@ type Contract struct {
 	UsesOnly []UsesOnly
 	Between  []BetweenClause
 	Paired   []PairedClause
+	DeferredOnly []DeferredOnlyClause
 	Sites    []SiteClause
 	Bound    bool
 	Terminates bool
@@ -79,7 +80,7 @@ type SpecFunc struct {
 	Opaque bool
 }
 
-var kwRe = regexp.MustCompile(`^(func|spec|readers|writers|callers|between|paired|safederef|preserved|internal|inline|eosexit|requires|ensures|decreases|loop|safe|modular|terminates|witness|witnessgo|unordered|usesonly|mapwrite|callsite|nobody|sitesonly|end)\b`)
+var kwRe = regexp.MustCompile(`^(func|spec|readers|writers|callers|between|paired|deferredonly|safederef|preserved|internal|inline|eosexit|requires|ensures|decreases|loop|safe|modular|terminates|witness|witnessgo|unordered|usesonly|mapwrite|callsite|nobody|sitesonly|end)\b`)
 
 func (e *Engine) loadContracts() error {
 	e.contracts = map[string]*Contract{}
@@ -277,6 +278,11 @@ func (e *Engine) parseContractFile(file, pkgPath, data string) error {
 					return fmt.Errorf("%s:%d: %v in %q", file, l.line, err, text)
 				}
 				cur.Sites = append(cur.Sites, SiteClause{Kind: kw, Target: fields[1], Expr: ex, Tags: tags, Text: text})
+			}
+		case "deferredonly":
+			// deferredonly[tags] <local>: see between.go
+			if len(fields) >= 2 {
+				cur.DeferredOnly = append(cur.DeferredOnly, DeferredOnlyClause{Name: fields[1], Tags: tags})
 			}
 		case "paired":
 			// paired[tags] <A> <B>: every call of A is followed at once by `defer B` (see between.go)
@@ -604,6 +610,10 @@ func (env *SpecEnv) eval(e ast.Expr) Val {
 			return Val{t: "nil", typ: types.Typ[types.UntypedNil]}
 		case "result", "result0":
 			if len(env.result) < 1 {
+				// (a local that happens to be called `result`, e.g. in a loop invariant)
+				if v, ok := env.vars[x.Name]; ok {
+					return v
+				}
 				specErr("result used where no result is available")
 			}
 			return env.result[0]
@@ -912,8 +922,13 @@ func (env *SpecEnv) call(x *ast.CallExpr) Val {
 	case "cap":
 		v := env.rv(env.eval(x.Args[0]))
 		return Val{t: app("s_cap", v.t), typ: intT}
-	case "forall", "exists":
+	case "forall", "exists", "forallx", "existsx":
 		// forall(i, body)  or  forall(k, "go type", body)
+		// forallx / existsx: the same quantifier, with every slice read s[i] re-indexed by the
+		// absolute position in the backing array and an explicit trigger on it (also for slices of
+		// non-struct elements, where plain forall leaves trigger selection to the solver)
+		absAlways := strings.HasSuffix(name, "x")
+		name = strings.TrimSuffix(name, "x")
 		id := x.Args[0].(*ast.Ident).Name
 		bv := boundPrefix + id
 		var bt types.Type = intT
@@ -929,6 +944,18 @@ func (env *SpecEnv) call(x *ast.CallExpr) Val {
 		if len(elemTriggers(body, bv)) > 0 {
 			if nb, ok := absIndexRewrite(body, bv); ok {
 				body = vc.nameElemArrays(nb)
+			}
+		}
+		if absAlways && len(elemTriggers(body, bv)) == 0 {
+			if nb, ok := absIndexRewrite(body, bv); ok {
+				body = nb
+				if pats := selectTriggers(body, bv); len(pats) > 0 {
+					body = "(! " + body
+					for _, p := range pats {
+						body += " :pattern (" + p + ")"
+					}
+					body += ")"
+				}
 			}
 		}
 		if pats := elemTriggers(body, bv); len(pats) > 0 {
@@ -957,6 +984,30 @@ func (env *SpecEnv) call(x *ast.CallExpr) Val {
 			specErr("unknown type %q", ts)
 		}
 		return Val{t: eq(app("i_tag", v.t), fmt.Sprint(vc.te.tagOf(t))), typ: boolT}
+	case "inscope": // inscope(name): is that local visible at this program point (decided statically; site clauses)
+		id, ok := x.Args[0].(*ast.Ident)
+		if !ok {
+			specErr("inscope needs an identifier")
+		}
+		if _, in := env.vars[id.Name]; in {
+			return Val{t: "true", typ: boolT}
+		}
+		return Val{t: "false", typ: boolT}
+	case "mk": // mk("pkg/path.Struct", f1, f2, ..): a struct value (e.g. a map key) from its fields in order
+		ts, _ := strconv.Unquote(x.Args[0].(*ast.BasicLit).Value)
+		t := vc.eng.typeByString(ts)
+		if t == nil || !isStruct(t) {
+			specErr("mk: unknown struct type %q", ts)
+		}
+		vc.te.sortOf(t)
+		var as []string
+		for _, a := range x.Args[1:] {
+			as = append(as, env.rv(env.eval(a)).t)
+		}
+		if len(as) != t.Underlying().(*types.Struct).NumFields() {
+			specErr("mk(%s): wrong number of fields", ts)
+		}
+		return Val{t: app(vc.te.structCtor(t), as...), typ: t}
 	case "visited": // ghost: visited(k) - the map range of this loop has produced key k in an earlier iteration
 		if env.seen == "" {
 			specErr("visited() outside the clauses of a map-range loop")
